@@ -143,19 +143,29 @@ Proof. vm_compute. split; reflexivity. Qed.
 
 (* ---- defer(): a due event queues its node ---- *)
 (* pipeline not paused, defer() ends without exception; a node of `per` that is
-   neither running nor waiting and has a (non-boot) event whose delay is
-   computable and <= 300 s ends up in que, waiting, with the all-targets marker
-   (analysis) or every known target in todo *)
-Theorem C20_due_queues : forall now targets st st' id p th d,
+   neither running nor waiting and has a due event -- a computable non-boot
+   event with delay <= 300 s, or a boot event that has not fired yet (an event
+   belongs to its own node only) -- ends up in que, waiting, with the
+   all-targets marker (analysis) or every known target in todo *)
+Definition due (now : clock) (st : sched) (id : nat) (p : event) : Prop :=
+  (m_boot (snd p) = None /\
+   exists th d, fst (delay [] p now) = Ok th d /\ d <= WINDOW_US) \/
+  (m_boot (snd p) <> None /\ ~ In p (s_booted st) /\
+   forall k, k <> id -> ~ In p (nd_period (s_node st k))).
+
+Theorem C20_due_queues : forall now targets st st' id p,
   s_paused st = false ->
   defer now targets st = (st', None) ->
   In id (s_per st) -> skipped (nd_status (s_node st id)) = false ->
-  In p (nd_period (s_node st id)) -> m_boot (snd p) = None ->
-  fst (delay [] p now) = Ok th d -> d <= WINDOW_US ->
+  In p (nd_period (s_node st id)) -> due now st id p ->
   In id (s_que st') /\ nd_status (s_node st' id) = St_waiting /\
   (nd_asp (s_node st' id) = true -> In ALL (nd_todo (s_node st' id))) /\
   (nd_asp (s_node st' id) = false -> incl targets (nd_todo (s_node st' id))).
-Proof. exact dl_due_queues. Qed.
+Proof.
+  intros now targets st st' id p Pz D I S P [[B [th [d [E W]]]]|[B [NB O]]].
+  - exact (dl_due_queues now targets st st' id p th d Pz D I S P B E W).
+  - exact (dl_due_queues_boot now targets st st' id p Pz D I S P B NB O).
+Qed.
 Print Assumptions C20_due_queues.
 
 (* ... and it is there once (repair 399dc9a), whatever the multiplicity of the
